@@ -191,7 +191,11 @@ func (t *Indexer) GetBlockByHeight(height uint64) (*lib.BlockResult, lib.ErrorI)
 		return nil, err
 	}
 	// populate cache on read so historical blocks are warm after a restart
-	blockCache.Add(height, block)
+	// NOTE: never cache a miss: the cache is keyed by height only and shared by every view of the store, so
+	// a read-only view at an older version (which cannot see this height yet) would poison it with an empty block
+	if block.BlockHeader != nil && block.BlockHeader.Height == height {
+		blockCache.Add(height, block)
+	}
 	return block, nil
 }
 
